@@ -607,6 +607,13 @@ def main():
            "the regulariser added to the advantage standard deviation is identified from the IR and only required to be a constant in (0, 1e-6]",
            "adam beyond its first update from a zero state; learning-rate schedules",
            "E[.] is the minibatch mean; how minibatches are formed is C09")
+    # `on data collected by the current policy every ratio is 1`: the premise is that the collected row holds the sampled action together with the
+    # log-probability and value the policy gave for THAT action -- the on-policy record obligations of C04 for a clipped (Box) and a discrete action
+    # space, discharged here as part of this clause
+    from props import C04
+    for kind_ in ("box", "discrete"):
+        with ck.section(f"onpolicy_record_premise.{kind_}"):
+            C04.check_step(ck, kind_, False, True)
     with ck.section("regulariser"):
         eps = identify_eps(ck)
     # ---- PPO, all four flag combinations
